@@ -30,9 +30,15 @@ class StubRng:
     def __init__(self, us):
         self.us = list(us); self.k = 0
 
-    def random(self):
-        u = self.us[self.k % len(self.us)]; self.k += 1
-        return u
+    def random(self, size=None):
+        if size is None:
+            u = self.us[self.k % len(self.us)]; self.k += 1
+            return u
+        import numpy as _np
+        n_ = int(_np.prod(size))
+        out = _np.array([self.us[(self.k + j) % len(self.us)] for j in range(n_)], dtype=float).reshape(size)
+        self.k += n_
+        return out
 
 
 def all_code_classes():
